@@ -34,6 +34,7 @@
     #[test]
     fn search() {
         let (mut cases, mut fails) = (0u64, 0u32);
+        let mut distinct: std::collections::HashSet<String> = std::collections::HashSet::new();
         let esc = |s: &str| s.replace('\\', "\\\\").replace('"', "'").replace('\n', "\\n").replace('\t', " ");
         for src in corpus() {
             cases += 1;
@@ -43,6 +44,10 @@
                 if *fails < 60 { println!("WITNESS-FAIL {{\"fn\": \"RoocParser::format\", \"clause\": \"{}\", \"source\": \"{}\", \"formatted\": \"{}\", \"detail\": \"{}\"}}", clause, esc(&src), esc(&formatted), esc(&detail)); }
                 *fails += 1;
             };
+            // non-trivial: the text parses AND compiles to a linear model; distinct: by formatted text
+            if compile_text(&src).is_ok() && distinct.insert(formatted.clone()) && distinct.len() % 40 == 1 {
+                println!("WITNESS-SAMPLE {{\"source\": \"{}\", \"formatted\": \"{}\"}}", esc(&src), esc(&formatted));
+            }
             let again = match RoocParser::new(formatted.clone()).format() {
                 Ok(f) => f,
                 Err(_) => { report(&mut fails, "the formatted text parses", String::new()); continue }
@@ -55,5 +60,5 @@
                 (Err(_), Err(_)) => {}
             }
         }
-        println!("WITNESS-DONE cases={}", cases);
+        println!("WITNESS-DONE cases={} distinct={}", cases, distinct.len());
     }
